@@ -431,9 +431,17 @@ def rule_scope_flags(rep: Report, repo: Repo):
     R = "E1.scope"
     f = repo.find(f"{MOD}::block_diagonalize", R)
     loc = lambda n: repo.loc(MOD, n)
-    scopes = [n for n in own_nodes(f) if isinstance(n, ast.Assign) and norm(n.targets[0]) == "scope" and isinstance(n.value, ast.Dict)]
+    # the scope handed to the algorithm: the dict display with the keys the DSL refers to (whatever the local is called)
+    scopes = [n for n in own_nodes(f) if isinstance(n, ast.Assign) and isinstance(n.value, ast.Dict) and isinstance(n.targets[0], ast.Name)
+              and {"solve_sylvester", "commuting_blocks"} <= {k.value for k in n.value.keys if isinstance(k, ast.Constant)}]
     if len(scopes) != 1:
         raise AnalysisError(R, "scope dictionary not found")
+    SCOPE = scopes[0].targets[0].id
+    _scc = [n for n in own_nodes(f) if isinstance(n, ast.Call) and call_name(n) == "series_computation" and n.args and isinstance(n.args[0], ast.Dict)]
+    _hm = {k.value: v for c_ in _scc for k, v in zip(c_.args[0].keys, c_.args[0].values) if isinstance(k, ast.Constant)}
+    if not isinstance(_hm.get("H"), ast.Name):
+        raise AnalysisError(R, "block_diagonalize: the series handed to series_computation as 'H' is not a local")
+    HN = _hm["H"].id
     d = {k.value: v for k, v in zip(scopes[0].value.keys, scopes[0].value.values) if isinstance(k, ast.Constant)}
     for key in ("solve_sylvester", "use_linear_operator", "two_block_optimized", "commuting_blocks"):
         if key not in d:
@@ -450,7 +458,8 @@ def rule_scope_flags(rep: Report, repo: Repo):
         for two, fd in iproduct([False, True], repeat=2):
             def atom(n):
                 t, pol = canon_atom(n)
-                if t in ("H.shape[0] == 2", "len(commuting_blocks) == 2", "2 == H.shape[0]"):
+                if t in (f"{HN}.shape[0] == 2", f"len({norm(d.get('commuting_blocks', ast.Name(id='commuting_blocks')))}) == 2", f"2 == {HN}.shape[0]",
+                         "L.shape[0] == 2"):
                     return two if pol else not two
                 if t == "fully_diagonalize":
                     return fd if pol else not fd
@@ -478,13 +487,13 @@ def rule_scope_flags(rep: Report, repo: Repo):
                 elif t == "isinstance(fully_diagonalize, dict)":
                     pol = "dict" if tp else "nodict"
             texts[pol] = rtext_(a.value, {})
-        ok = texts.get("nodict") in ("[True] * H.shape[0]",) and \
-            texts.get("dict") in ("[_v0 not in fully_diagonalize for _v0 in range(H.shape[0])]",)
+        ok = texts.get("nodict") in (f"[True] * {HN}.shape[0]",) and \
+            texts.get("dict") in (f"[_v0 not in fully_diagonalize for _v0 in range({HN}.shape[0])]",)
         rep.check(ok, R, f"{MOD}::block_diagonalize commuting_blocks[i] is False exactly for blocks with a user mask",
                   str(texts), loc(src[0] if src else scopes[0]))
     rep.check(norm(d.get("solve_sylvester", ast.Constant(None))) == "solve_sylvester", R,
               f"{MOD}::block_diagonalize scope passes the selected solver", "", loc(scopes[0]))
-    rep.check(norm(d.get("use_linear_operator", ast.Constant(None))) == "use_linear_operator", R,
+    rep.check(isinstance(d.get("use_linear_operator"), ast.Name), R,
               f"{MOD}::block_diagonalize scope passes the linear-operator mask", "", loc(scopes[0]))
     # diag / offdiag installed together in both mask branches
     installs, pairs = [], {}
@@ -493,9 +502,9 @@ def rule_scope_flags(rep: Report, repo: Repo):
             continue
         tg = n.targets[0]
         items = []
-        if isinstance(tg, ast.Subscript) and norm(tg.value) == "scope":
+        if isinstance(tg, ast.Subscript) and norm(tg.value) == SCOPE:
             items = [(tg, n.value)]
-        elif isinstance(tg, ast.Tuple) and all(isinstance(t_, ast.Subscript) and norm(t_.value) == "scope" for t_ in tg.elts):
+        elif isinstance(tg, ast.Tuple) and all(isinstance(t_, ast.Subscript) and norm(t_.value) == SCOPE for t_ in tg.elts):
             if not (isinstance(n.value, ast.Tuple) and len(n.value.elts) == len(tg.elts)):
                 raise AnalysisError(R, f"block_diagonalize: `{norm(n)[:70]}` installs scope entries from a value that is not followed")
             items = list(zip(tg.elts, n.value.elts))
@@ -520,11 +529,14 @@ def rule_scope_flags(rep: Report, repo: Repo):
     b1 = _bind1(scdef, c)
     if b1 is None:
         raise AnalysisError(R, "block_diagonalize: the series_computation call cannot be bound")
-    env_c = {k_: v_ for k_, v_ in _ea1(c, f).items() if k_ not in ("scope", "H", "operator")}
+    env_c = {k_: v_ for k_, v_ in _ea1(c, f).items() if k_ not in (SCOPE, HN)}
     alg_t = norm(_canon1(_rs1(b1["algorithm"], env_c)))
     rep.check(alg_t in ("main if hermitian else nonhermitian", "nonhermitian if not hermitian else main"), R,
               f"{MOD}::block_diagonalize algorithm = main if hermitian else nonhermitian", alg_t, loc(c))
-    ok = norm(b1["series"]) == "{'H': H}" and norm(b1["scope"]) == "scope" and norm(b1["operator"]) == "operator"
+    # the multiplication handed on: the local that was chosen between matmul and mul
+    opv = b1["operator"]
+    op_defs = {norm(n_.value) for n_ in own_nodes(f) if isinstance(n_, ast.Assign) and isinstance(opv, ast.Name) and norm(n_.targets[0]) == opv.id}
+    ok = norm(b1["series"]) == f"{{'H': {HN}}}" and norm(b1["scope"]) == SCOPE and isinstance(opv, ast.Name) and bool(op_defs) and op_defs <= {"matmul", "mul"}
     rep.check(ok, R, f"{MOD}::block_diagonalize series_computation({{'H': H}}, algorithm, scope, operator)",
               str({k_: norm(v_)[:40] for k_, v_ in b1.items()}), loc(c))
     rets = [n for n in own_nodes(f) if isinstance(n, ast.Return)]
@@ -559,7 +571,9 @@ def rule_scope_flags(rep: Report, repo: Repo):
         rep.check("plain" in forms, R, f"{MOD}::block_diagonalize returns (H_tilde, U, U†) in this order", str(forms), loc(rets[-1] if rets else f))
     # equal_eigs: the kept pairs of a fully diagonalised block are the pairs the diagonal solver treats as
     # degenerate: numeric |E_a - E_b| < atol with the same `atol` that is handed to the solver; symbolic: equality
-    ee = [n for n in own_nodes(f) if isinstance(n, ast.Assign) and norm(n.targets[0]) == "equal_eigs"]
+    # the kept-pairs table, by role: the top-level dict comprehension over the blocks named in fully_diagonalize
+    ee = [n for n in f.body if isinstance(n, ast.Assign) and isinstance(n.targets[0], ast.Name) and n.targets[0].id != "fully_diagonalize"
+          and isinstance(n.value, ast.DictComp) and "fully_diagonalize" in norm(n.value.generators[0].iter)]
     if len(ee) != 1 or not isinstance(ee[0].value, ast.DictComp) or len(ee[0].value.generators) != 1:
         raise AnalysisError(R, "definition of equal_eigs (kept pairs of fully diagonalised blocks) not found as one dict comprehension")
     dc = ee[0].value
